@@ -30,6 +30,8 @@ def run(ctx):
     ctx.floor('R9.1', 'arithmetic sinks analysed', sinks, 25)
     ctx.rule('R9.6', 'the axiom m2 >= 0 is justified structurally: Tally.register moves the mean by one convex step and adds (x-old)*(x-new) to m2')
     N.convex_update(ctx, 'R9.6', {'statistics', 'utils'}, 'Tally', '_m1', '_m2', 'value', N.STAT_AXIOMS)
+    ctx.rule('R9.7', 'count / sum / minimum / maximum of Tally are maintained as n+1, sum+x, min(prev, x), max(prev, x) on every accepting path (def-use DAG)')
+    N.accumulators(ctx, 'R9.7', {'statistics', 'utils'}, 'Tally', [('count', '_n'), ('sum', '_sum', 'value'), ('min', '_min', 'value'), ('max', '_max', 'value')], N.STAT_AXIOMS)
     T.rejected_input(ctx, 'R9.2', ['Counter', 'Tally', 'EventBasedCounter', 'EventBasedTally', 'SimCounter', 'SimTally'])
     T.coercion_before_write(ctx, 'R9.2b', ['Tally'])
     T.reset_completeness(ctx, 'R9.3', ['Counter', 'Tally', 'EventBasedCounter', 'EventBasedTally', 'SimCounter', 'SimTally'])
